@@ -8,7 +8,7 @@ cd "$(dirname "$0")"
 FILTER="${1:-}"
 declare -A EXPECT=(
   [add_return_type_lhs]="C01"
-  [value_arm_covers]="C02 C12"
+  [value_arm_covers]="C02"
   [at_range_off_by_one]="C09 C04"
   [or_recreate_drops_rhs]="C04 C07"
   [if_evaluates_both]="C07 C12"
